@@ -180,7 +180,49 @@ def make_net(sizes, dim, kind, seed=0):
     if kind == 'seeded':
         rnd = random.Random(seed * 7919 + len(idx) * 31 + dim)
         return [[float(rnd.randint(-9, 9)) for _ in range(dim)] for _ in idx]
+    # ---- data variety (DESIGN §6 wave 5): the same coded net under maps that leave the small-integer world
+    base = [_coded(i, j, k, dim) for i, j, k in idx]
+    if kind == 'negfrac':       # negative and fractional, not dyadic
+        return [[-0.37 * c + 0.1 * (m + 1) for m, c in enumerate(p)] for p in base]
+    if kind == 'large':         # 1e6 .. 1e8
+        return [[1.0e6 * c + 1.0e7 for c in p] for p in base]
+    if kind == 'tiny':          # 1e-6
+        return [[1.0e-6 * c for c in p] for p in base]
+    if kind == 'zeroplane':     # first coordinate exactly 0.0 (one -0.0), the others as coded
+        out = [[0.0] + p[1:] for p in base]
+        out[len(out) // 2][0] = -0.0
+        return out
+    if kind == 'coincident':    # the first two and the last two control points coincide
+        out = [list(p) for p in base]
+        if len(out) >= 4:
+            out[1] = list(out[0])
+            out[-2] = list(out[-1])
+        return out
+    if kind == 'closed':        # closed polygon: the last control point repeats the first (none of them at the origin)
+        out = [[c + 1.0 for c in p] for p in base]
+        out[-1] = list(out[0])
+        return out
+    if kind == 'collinear':     # all control points on one line, not equally spaced
+        return [[float(n * n + 1) * (m + 1) for m in range(dim)] for n in range(len(idx))]
     raise ValueError(kind)
+
+
+VARIETY_NETS = ['negfrac', 'large', 'tiny', 'zeroplane', 'coincident', 'closed', 'collinear']
+VARIETY_WEIGHTS = ['extreme', 'equal5', 'smallw']
+
+
+def odd_kvs(p, level=1):
+    """knot vectors outside the dyadic unit-interval world, as (kv, normalize_kv) pairs: decimal and 1/7 knot values,
+    ranges far from [0,1] kept as given, a very short range; one interior knot structure with a repeated knot each"""
+    def kv(lo, hi, fr):
+        return [lo] * (p + 1) + [lo + (hi - lo) * f for f in fr] + [hi] * (p + 1)
+    fr1 = [0.1, 0.3, 0.7][:max(1, min(3, p + 1))]
+    fr2 = [1.0 / 7.0, 3.0 / 7.0] + ([3.0 / 7.0] if p >= 2 else [])
+    out = [(kv(0.0, 1.0, fr1), True), (kv(0.0, 1.0, fr2), True),
+           (kv(-5.0, -1.0, fr1), False), (kv(100.0, 200.0, fr2), False), (kv(0.0, 1.0e-3, [0.5, 0.5] if p >= 2 else [0.5]), False)]
+    if level >= 2:
+        out += [(kv(-5.0, -1.0, fr2), True), (kv(100.0, 200.0, fr1), True), (kv(0.0, 3.0, [0.3, 0.57]), False)]
+    return out
 
 
 def make_weights(sizes, kind, seed=0):
@@ -199,6 +241,12 @@ def make_weights(sizes, kind, seed=0):
     if kind == 'seeded':
         rnd = random.Random(seed * 104729 + len(idx))
         return [rnd.choice([0.25, 0.5, 1.0, 2.0, 3.0]) for _ in idx]
+    if kind == 'extreme':       # below 0.1 and above 100
+        return [[0.01, 250.0, 1.0, 0.07][n % 4] for n in range(len(idx))]
+    if kind == 'equal5':        # all equal but not 1: the shape is polynomial, the object is rational
+        return [5.0] * len(idx)
+    if kind == 'smallw':        # all small, not equal
+        return [1.0e-3 * (1 + (n % 3)) for n in range(len(idx))]
     raise ValueError(kind)
 
 
